@@ -186,8 +186,16 @@ func (c *ConstantStruct) Link(scope Scope, t TypeSpec) (ConstantValue, error) {
 		return nil, constantValueCastError{Value: c, Type: t}
 	}
 
+	// The result is a new value: the same ConstantStruct is linked again,
+	// possibly against another struct type, when a reference to the constant
+	// that holds it is cast.
+	fields := make(map[string]ConstantValue, len(c.Fields))
+	for name, f := range c.Fields {
+		fields[name] = f
+	}
+
 	for _, field := range s.Fields {
-		f, ok := c.Fields[field.Name]
+		f, ok := fields[field.Name]
 		if !ok {
 			if field.Default == nil {
 				if field.Required {
@@ -210,7 +218,6 @@ func (c *ConstantStruct) Link(scope Scope, t TypeSpec) (ConstantValue, error) {
 				}
 			}
 			f = field.Default
-			c.Fields[field.Name] = f
 		}
 
 		f, err := f.Link(scope, field.Type)
@@ -225,10 +232,10 @@ func (c *ConstantStruct) Link(scope Scope, t TypeSpec) (ConstantValue, error) {
 			}
 		}
 
-		c.Fields[field.Name] = f
+		fields[field.Name] = f
 	}
 
-	return c, nil
+	return &ConstantStruct{Fields: fields}, nil
 }
 
 // ConstantMap represents a map literal from the Thrift file.
